@@ -145,7 +145,7 @@ func (r *Run) RunThread(tid int) string {
 
 // Drain runs the lowest live thread until nobody is live and prints the final line.
 func (r *Run) Drain() string {
-	for i := 0; i < 100000; i++ {
+	for i := 0; i < 3000; i++ {
 		l := r.sc.Live()
 		if len(l) == 0 {
 			break
@@ -282,7 +282,8 @@ func dfs(sc scenario, bound int, limit int, emit func(sched []int)) {
 		r := replay(sc, prefix)
 		live := r.Live()
 		r.Close()
-		if len(live) == 0 {
+		if len(live) == 0 || len(prefix) >= 300 {
+			// complete schedule (or a run that does not terminate: cut, the model must agree so far)
 			n++
 			emit(append([]int(nil), prefix...))
 			return
